@@ -32,6 +32,7 @@ def _requote_undecodable_bytes(error):
 codecs.register_error("ural_requote", _requote_undecodable_bytes)
 
 C1_CONTROL_CHARS_RE = re.compile("[\x80-\x9f]")
+WHITESPACE_RE = re.compile(r"\s")
 
 
 def _requote_match(match):
@@ -99,7 +100,7 @@ def _generate_unquoted_parts(string, only_printable=False, unsafe=None):
 def unquote(string, only_printable=False, unsafe=None, normalize_space=False):
     if "%" not in string:
         if normalize_space:
-            return string.replace(" ", "%20")
+            return WHITESPACE_RE.sub(_requote_match, string)
 
         return string
 
@@ -107,8 +108,10 @@ def unquote(string, only_printable=False, unsafe=None, normalize_space=False):
         _generate_unquoted_parts(string, only_printable=only_printable, unsafe=unsafe)
     )
 
+    # NOTE: any whitespace left raw (not only " ") would be stripped or split
+    # upon by the next cleaning pass
     if normalize_space:
-        q = q.replace(" ", "%20")
+        q = WHITESPACE_RE.sub(_requote_match, q)
 
     return q
 
